@@ -148,7 +148,8 @@ impl fmt::Display for Formatter {
                     }
                     Token::YearShort => {
                         write_sep(f, i, &self.format)?;
-                        write!(f, "{y:02}")?
+                        // As documented: the year after 2000 on two digits (the parser adds 2000 back).
+                        write!(f, "{:02}", y.rem_euclid(100))?
                     }
                     Token::Month => {
                         write_sep(f, i, &self.format)?;
